@@ -290,6 +290,8 @@ import s_config
 
 def _c16_run(tier, seed, out, drv):
     s_config.config_suite(seed, tier, out, drv)
+    import s_argv       # the command line as a source: parseArgv + cliSource against the real parse_args / set_args
+    s_argv.argv_suite('C16', seed, 1500 if tier == 'quick' else 40000, out, drv)
 
 
 PLANS['C16'] = dict(run=_c16_run, replay=s_config.replay, replay_kind='config',
@@ -331,6 +333,8 @@ import s_cmake
 def _c19_run(tier, seed, out, drv):
     s_cmake.cmake_suite(seed, 24 if tier == 'quick' else 264, out, drv, budget_s=150 if tier == 'quick' else 1500)
     s_cmake.history_suite(seed, 12 if tier == 'quick' else 120, out, drv, budget_s=100 if tier == 'quick' else 1200)
+    import s_argv       # what an argument vector means to main(): the parser model C19_equiv speaks about, against the real parser
+    s_argv.argv_suite('C19', seed, 800 if tier == 'quick' else 20000, out, drv)
 
 
 PLANS['C19'] = dict(run=_c19_run, replay=s_cmake.replay, replay_kind='cmake',
